@@ -1,3 +1,4 @@
+use crate::error_code::ErrorCode;
 use crate::server_error::ServerResult;
 use agdb::QueryType;
 use agdb_api::DbUserRole;
@@ -67,6 +68,28 @@ pub(crate) fn required_role(queries: &Queries) -> DbUserRole {
     }
 
     DbUserRole::Read
+}
+
+/// A user or database name becomes a single path component under the data
+/// directory. It must not be empty, must not contain path separators or control
+/// characters and must not start with a dot ("." / ".." / hidden files such as
+/// the write ahead log ".<db>" of another database).
+pub(crate) fn is_valid_name(name: &str) -> bool {
+    !name.is_empty()
+        && !name.starts_with('.')
+        && !name
+            .chars()
+            .any(|c| c == '/' || c == '\\' || c.is_control())
+}
+
+/// Database names additionally must not clash with the per-user directories
+/// the server itself creates next to the database files.
+pub(crate) fn validate_db_name(name: &str) -> ServerResult {
+    if !is_valid_name(name) || name == "backups" || name == "audit" {
+        return Err(ErrorCode::DbInvalid.into());
+    }
+
+    Ok(())
 }
 
 pub(crate) fn unquote(value: &str) -> &str {
